@@ -14,6 +14,16 @@ chunk / the io buffer: then the tail of the payload sits in the user-space buffe
 
     python -m vt.harness.c20_producers params - - -      prints the chunk / buffer sizes of the snapshot as JSON
 
+`%flags` appended to a scenario (`create%rel+xdev`, `ok@1500%dot+xdev`) selects the ENVIRONMENT of the run - how the
+output path is spelled and where $TMPDIR lives are inputs of every producer that accepts an output path:
+    rel   the output paths are BARE file names (no directory part), the current directory is D
+    dot   the output paths are `./name`, the current directory is D
+    xdev  $TMPDIR is a directory on ANOTHER file system than D (set up by vt/props/c20.py; EXDEV emulated by the
+          LD_PRELOAD shim when the machine has no second writable file system)
+    tmp   $TMPDIR is a fresh directory on the same file system as D
+Without flags: absolute output paths, $TMPDIR untouched.  xdev/tmp are set up by the orchestrator (process
+environment); rel/dot are applied here, right before the producer is called.
+
 Nothing in here writes below D except through the mwlib code under test (the dummy `writer` of the
 render producer writes to the temp path render.py hands it - that is the writer's contract).
 With C20_RECORD=<dir> (never under strace) a copy of every published file is taken after each publish
@@ -40,8 +50,42 @@ FINALS = {
 }
 
 
+ENV_FLAGS = ("rel", "dot", "xdev", "tmp")
+_flags = set()
+
+
+def scenario_flags(scenario):
+    """'create@9%rel+xdev' -> {'rel', 'xdev'}"""
+    if "%" not in scenario:
+        return set()
+    fl = set(scenario.split("%", 1)[1].split("+"))
+    if not fl <= set(ENV_FLAGS) or ("rel" in fl and "dot" in fl) or ("xdev" in fl and "tmp" in fl):
+        raise ValueError("bad environment flags in scenario %r" % scenario)
+    return fl
+
+
+def base_scenario(scenario):
+    return scenario.split("%", 1)[0]
+
+
+def enter(D):
+    """rel/dot: from here on the producer runs with the work directory as its current directory"""
+    if _flags & {"rel", "dot"}:
+        os.chdir(D)
+
+
+def outpath(D, name):
+    """how the caller of the producer spells the output path"""
+    if "rel" in _flags:
+        return name
+    if "dot" in _flags:
+        return os.path.join(".", name)
+    return os.path.join(D, name)
+
+
 def split_scenario(scenario):
-    """'ok@1500' -> ('ok', 1500) ; 'ok' -> ('ok', None)"""
+    """'ok@1500' -> ('ok', 1500) ; 'ok' -> ('ok', None) ; environment flags are dropped"""
+    scenario = base_scenario(scenario)
     if "@" in scenario:
         name, n = scenario.split("@", 1)
         return name, int(n)
@@ -99,10 +143,11 @@ def run_status(scenario, D, IN):
     big = ("Gamma \u00e4\u00f6 " * (size // 9 + 1))[:size] if size else ""     # non-ASCII: bytes != characters
     record_status_dumps(D, "status")
     Status.stdout = None                       # progress line on stdout is not a published file
+    enter(D)
     if scenario == "nodir":                    # FileNotFoundError branch of dump (status.py:123)
-        fn = os.path.join(D, "missing-dir", "status.json")
+        fn = outpath(D, os.path.join("missing-dir", "status.json"))
     else:
-        fn = os.path.join(D, "status.json")
+        fn = outpath(D, "status.json")
 
     class Pod:                                 # podclient path of Status.__call__: no file involved
         def post_status(self, **kw):
@@ -124,7 +169,8 @@ def run_status(scenario, D, IN):
 def run_zip(scenario, D, IN):
     from mwlib.apps import buildzip
     silence_qs()
-    out = os.path.join(D, "coll.zip")
+    enter(D)
+    out = outpath(D, "coll.zip")
     scenario, size = split_scenario(scenario)
     res = buildzip.ZipCreator.create_zip(os.path.join(IN, "nuwiki" if size is None else "nuwiki@%d" % size), out)
     assert res == out
@@ -137,7 +183,8 @@ def run_makezip(scenario, D, IN):
     silence_qs()
     record_status_dumps(D, "makezip")
     Status.stdout = None
-    out = os.path.join(D, "coll.zip")
+    enter(D)
+    out = outpath(D, "coll.zip")
     scenario, size = split_scenario(scenario)
 
     def fake_make_nuwiki(fsdir, metabook=None, wiki_options=None, pod_client=None, status=None):
@@ -163,7 +210,7 @@ def run_makezip(scenario, D, IN):
             checkpoint(D, "makezip")
             if scenario == "postfail":
                 raise RuntimeError("upload failed")
-    status = Status(os.path.join(D, "status.json"))
+    status = Status(outpath(D, "status.json"))
     pod = Pod() if scenario in ("pod", "postfail") else None
     try:
         res = buildzip.make_zip(output=out, wiki_options={"output": out}, metabook=None, pod_client=pod, status=status)
@@ -207,7 +254,8 @@ def run_download(scenario, D, IN):
         return httpx.Response(200, stream=Body())
     client = httpx.Client(transport=httpx.MockTransport(handler))   # lowest layer stubbed: no socket
     fetch._get_download_client = lambda url: client
-    path = os.path.join(D, "img.png")
+    enter(D)
+    path = outpath(D, "img.png")
     temp_path = (path + "\xb7").encode("utf-8")                     # as fetch.py:874
     try:
         fetch.download_to_file("http://stub.invalid/img.png", path, temp_path, max_retries=2, initial_delay=0)
@@ -229,8 +277,9 @@ def run_render(scenario, D, IN):
     body = open(os.path.join(IN, "rendered.bin"), "rb").read()
     if size is not None:                            # keep header and trailer: the reader parses the document
         body = body[:9] + sized(body[9:-7], max(0, size - 16)) + body[-7:]
-    out = os.path.join(D, "out.pdf")
-    status_file = os.path.join(D, "status.json")
+    enter(D)
+    out = outpath(D, "out.pdf")
+    status_file = outpath(D, "status.json")
 
     def writer(env, output=None, status_callback=None, **kw):
         # a writer writes the document to the path it is given (render.py hands it `tmpout`)
@@ -297,6 +346,7 @@ if __name__ == "__main__":
     if producer == "params":
         sys.stdout.write(json.dumps(params()) + "\n")
         sys.exit(0)
+    _flags.update(scenario_flags(scenario))
     try:
         PRODUCERS[producer](scenario, D, IN)
     except OSError as e:                      # injected faults surface as OSError: the exit code tells the orchestrator
